@@ -755,6 +755,37 @@ pub fn check_main(space: &(dyn Space + Sync), cfg: &RunCfg) -> i32 {
                         }
                     }
                 }
+                // Third stage: what recurs neither alone nor after its history may still be the subject
+                // behaving differently from run to run (iteration order of a hashed collection, an
+                // address, the time).  The case is repeated alone, each time in fresh workers; if the
+                // same violation shows again in any repetition it is reported as intermittent - for code
+                // that is meant to be a function of its input that is a defect by itself.
+                let still_lonely: Vec<u64> = unknown
+                    .iter()
+                    .filter(|v| reps.contains(&v.idx) && !again_set.contains(&(v.idx, v.sig.clone())) && !v.sig.starts_with("timeout"))
+                    .map(|v| v.idx)
+                    .collect();
+                if !still_lonely.is_empty() {
+                    let mut hits: BTreeMap<(u64, String), u32> = BTreeMap::new();
+                    let rounds = 8;
+                    for _ in 0..rounds {
+                        let cfg3 = RunCfg { history_window: false, tier: cfg.tier.clone(), seed: cfg.seed, jobs: cfg.jobs.min(still_lonely.len()), verif_dir: cfg.verif_dir.clone() };
+                        if let Ok(rep) = explore(space, &cfg3, Some(still_lonely.clone())) {
+                            for v in rep.violations {
+                                if still_lonely.contains(&v.idx) {
+                                    *hits.entry((v.idx, v.sig.clone())).or_insert(0) += 1;
+                                }
+                            }
+                        }
+                    }
+                    for ((idx, sig), n) in hits {
+                        if unknown.iter().any(|v| v.idx == idx && v.sig == sig) {
+                            eprintln!("[{}] violation is intermittent: recurred in {} of {} repetitions of the case alone (idx {})", id, n, rounds, idx);
+                            agg.caps.push(format!("intermittent violation (recurred in {} of {} repetitions of the case alone - the code under test does not behave as a function of its input): idx {} {}", n, rounds, idx, util::clip(&sig, 80)));
+                            again_set.insert((idx, sig));
+                        }
+                    }
+                }
                 let mut dropped: HashSet<String> = HashSet::new();
                 let mut unreproduced: Vec<FoundViolation> = vec![];
                 for v in &unknown {
